@@ -162,8 +162,8 @@ func validDelBatches(d, b int) []delBatch {
 		return o
 	}
 	mk(full, seq(func(i int) int64 { return int64(i % n) }), false)
-	mk(full, seq(func(i int) int64 { return int64(n - 1) }), false)            // same index repeatedly (second sees empty leaf)
-	mk(full, seq(func(i int) int64 { return int64(n + i%n) }), true)           // all padding with garbage contents
+	mk(full, seq(func(i int) int64 { return int64(n - 1) }), false)                               // same index repeatedly (second sees empty leaf)
+	mk(full, seq(func(i int) int64 { return int64(n + i%n) }), true)                              // all padding with garbage contents
 	mk(full, seq(func(i int) int64 { return []int64{int64(n - 1), int64(2*n - 1)}[i%2] }), false) // mixed
 	return out
 }
@@ -198,10 +198,10 @@ func nearValidInsBatches(d, b int) []insBatch {
 		comms[i] = ref.B(int64(i + 3))
 	}
 	empty := ref.NewTree(ref.BN, d)
-	mk(empty, int64(n), comms, false)        // first position one past the end (aliases leaf 0)
-	mk(empty, int64(n-1), comms, false)      // batch runs past the end when b >= 2
-	mk(empty, int64(2*n-b), comms, false)    // top of the one-bit-too-wide range
-	mk(empty, int64(2*n), comms, false)      // two bits too high
+	mk(empty, int64(n), comms, false)     // first position one past the end (aliases leaf 0)
+	mk(empty, int64(n-1), comms, false)   // batch runs past the end when b >= 2
+	mk(empty, int64(2*n-b), comms, false) // top of the one-bit-too-wide range
+	mk(empty, int64(2*n), comms, false)   // two bits too high
 	occ := ref.NewTree(ref.BN, d)
 	occ.Set(0, ref.B(9))
 	mk(occ, 0, comms, true) // writes over an occupied leaf with the path that would authenticate it if emptiness were not checked
